@@ -128,6 +128,7 @@ META = ("GUARD rules G1-G5 over the clang AST of every contract-checked operatio
         "guard programs against the contract table; DIM (linalg: index variables range over an extent the preconditions equate "
         "with the indexed dimension, union-find over (object, dimension))",
         ["clang 14 parser/sema (tetl-ast)", "specs/contracts.json", "bounded-model evaluator analysis/terms.py"])
+META = (META[0] + ' G3 also forbids constructing / destroying the slot a state requirement is about before the handler fires.', META[1])
 
 
 def run(chk, tier):
